@@ -78,7 +78,7 @@ P = D.DesignProperty(
           "(ambiguous and unsatisfiable-by-construction classes are discarded and counted); non-trivial = the documented "
           "count differs from the plain product of the crossed factors' level counts (weights, preamble, exclusion, "
           "MinimumTrials or several crossings contribute); distinct = distinct spec JSON"),
-    cfg_quick=CFG, n_quick=50, n_thorough=500, case_limit=(10, 60),
+    cfg_quick=CFG, n_quick=50, n_thorough=250, case_limit=(10, 60),
     limits={"max_T": {"quick": 8, "thorough": 12}},
     assumptions=["vp/ref.py reads the documented trial-count rules correctly (self-tested against the maintainers' acceptance counts)"])
 P.export(globals())
